@@ -129,21 +129,66 @@ func checkPosaSync(c *core.Ctx, pkg, typ string, full bool) {
 				}
 			}
 		}
+		outer := fn
 		if flagIf == nil {
-			c.Broken("C29.signer-in-set", fn, "valid flag test", c.P.Rel(fn.Pos()), "not found")
-			return
-		}
-		eng.Dominates(c, "C29.signer-in-set", fn, eng.NamedGuard{Name: "valid", G: func(cd ir.Cond) (bool, bool) {
-			if cd.If == flagIf {
-				return true, !cd.Neg || true
+			// the membership loop may sit in a same-package helper answering (found bool, err error):
+			// the helper's answer must be true before addHeader, and the flag rules are decided in it
+			for _, ci := range ir.Calls(fn, nil) {
+				cl, isCl := ci.(*ssa.Call)
+				if !isCl {
+					continue
+				}
+				h := cl.Common().StaticCallee()
+				if h == nil || h.Pkg != fn.Pkg || len(h.Blocks) < 3 || h.Signature.Results().Len() == 0 {
+					continue
+				}
+				if bt, isB := h.Signature.Results().At(0).Type().Underlying().(*types.Basic); !isB || bt.Kind() != types.Bool {
+					continue
+				}
+				passesSigner := false
+				for _, a := range cl.Common().Args {
+					if sc, idx := ir.CallOf(a); sc != nil && idx == 0 && ir.CalleeIs(sc, vs) {
+						passesSigner = true
+					}
+				}
+				if !passesSigner {
+					continue
+				}
+				// its boolean answer is the found-flag
+				var flagPhi *ssa.Phi
+				for _, hb := range h.Blocks {
+					if ret, isRet := hb.Instrs[len(hb.Instrs)-1].(*ssa.Return); isRet {
+						if p, isP := ret.Results[0].(*ssa.Phi); isP {
+							flagPhi = p
+						}
+					}
+				}
+				if flagPhi == nil {
+					continue
+				}
+				eng.Dominates(c, "C29.signer-in-set", fn, eng.NamedGuard{Name: "valid", G: ir.BoolIs(func(x *ssa.Call) bool { return x == cl }, true)}, adds, "addHeader", nil)
+				defer ir.BindParams(h, cl.Common().Args)()
+				c.Attribute(h, fn)
+				fn = h
+				break
 			}
-			return false, false
-		}}, adds, "addHeader", nil)
+			if fn == outer {
+				c.Broken("C29.signer-in-set", fn, "valid flag test", c.P.Rel(fn.Pos()), "not found")
+				return
+			}
+		} else {
+			eng.Dominates(c, "C29.signer-in-set", fn, eng.NamedGuard{Name: "valid", G: func(cd ir.Cond) (bool, bool) {
+				if cd.If == flagIf {
+					return true, !cd.Neg || true
+				}
+				return false, false
+			}}, adds, "addHeader", nil)
+		}
 		// the loop and the equality
 		loops := eng.FindSliceLoops(fn, func(v ssa.Value) bool { return isFieldNamed(v, "Validators") })
 		var lp *eng.SliceLoop
 		for i := range loops {
-			if loops[i].Header == flagPhiBlock(flagIf) || true {
+			if true {
 				lp = &loops[i]
 			}
 		}
@@ -195,9 +240,11 @@ func checkPosaSync(c *core.Ctx, pkg, typ string, full bool) {
 			if cmp == nil || !isFieldNamed(cmp.Common().Args[0], "Difficulty") {
 				return false, false
 			}
-			g := globalName(cmp.Common().Args[1])
-			if g != "diffInTurn" && g != "diffNoTurn" {
-				return false, false
+			// the in-turn / out-of-turn constant, written in each branch or selected into one operand
+			for _, l := range eng.PhiLeaves(nil, cmp.Common().Args[1]) {
+				if g := globalName(l); g != "diffInTurn" && g != "diffNoTurn" {
+					return false, false
+				}
 			}
 			return true, b.Op == token.EQL
 		}}
@@ -220,6 +267,30 @@ func checkPosaSync(c *core.Ctx, pkg, typ string, full bool) {
 					for _, in := range tgt.Instrs {
 						if cl, isCall := in.(*ssa.Call); isCall && ir.CalleeObj(cl) != nil && ir.CalleeObj(cl).Name() == "Cmp" && globalName(cl.Common().Args[1]) == "diffInTurn" {
 							okTurn = true
+						}
+					}
+					// or: the expected value is selected — diffInTurn flows into the compared operand exactly
+					// from the branch taken when the indices are equal
+					for _, blk := range fn.Blocks {
+						for _, in := range blk.Instrs {
+							p, isP := in.(*ssa.Phi)
+							if !isP {
+								continue
+							}
+							nIn, okSel := 0, true
+							for i, e := range p.Edges {
+								if globalName(e) != "diffInTurn" {
+									continue
+								}
+								nIn++
+								pred := blk.Preds[i]
+								if !(pred == tgt || tgt.Dominates(pred)) {
+									okSel = false
+								}
+							}
+							if nIn > 0 && okSel {
+								okTurn = true
+							}
 						}
 					}
 				}
@@ -337,7 +408,7 @@ func checkPosaSync(c *core.Ctx, pkg, typ string, full bool) {
 			return false, false
 		}
 		k, okk := ir.ConstInt(b.Y)
-		if !okk || k != 0 || ir.Strip(cmp.Common().Args[0]) != ir.Strip(extern) {
+		if !okk || ir.Strip(cmp.Common().Args[0]) != ir.Strip(extern) {
 			return false, false
 		}
 		// localTd = canonical header's DifficultySum
@@ -345,10 +416,16 @@ func checkPosaSync(c *core.Ctx, pkg, typ string, full bool) {
 		if !ok || f != "DifficultySum" || !isCallTo(base, gch) {
 			return false, false
 		}
-		switch b.Op {
-		case token.GTR:
+		// Cmp answers -1, 0 or +1: any test that holds exactly for +1 (`> 0`, `>= 1`, `== 1`) passes on its
+		// true edge, any that holds exactly for {-1, 0} (`<= 0`, `< 1`, `!= 1`) on its false edge
+		set := triSet(b.Op, k)
+		if set == nil {
+			return false, false
+		}
+		if len(set) == 1 && set[1] {
 			return true, true
-		case token.LEQ:
+		}
+		if len(set) == 2 && set[-1] && set[0] {
 			return true, false
 		}
 		return false, false
